@@ -4,6 +4,7 @@ package main
 import (
 	"encoding/json"
 	"math/rand"
+	"time"
 
 	"github.com/welllog/golib/listz"
 	"github.com/welllog/golib/verifshim/sched"
@@ -53,6 +54,9 @@ func (o *obj) Exec(tid int, c sched.Call) []interface{} {
 	case "popwaitneg":
 		v, ok := o.l.PopWait(-1)
 		return []interface{}{v, ok}
+	case "popwait20":
+		v, ok := o.l.PopWait(20 * time.Millisecond)
+		return []interface{}{v, ok}
 	case "len":
 		return []interface{}{o.l.Len()}
 	}
@@ -100,7 +104,11 @@ func gen(rng *rand.Rand) json.RawMessage {
 				prog[t] = append(prog[t], []interface{}{"pop"})
 				pops++
 			case x < 8:
-				prog[t] = append(prog[t], []interface{}{"popwait0"})
+				if rng.Intn(3) == 0 { // the timed form (real time only decides when it gives up)
+					prog[t] = append(prog[t], []interface{}{"popwait20"})
+				} else {
+					prog[t] = append(prog[t], []interface{}{"popwait0"})
+				}
 				pops++
 			case x < 9:
 				prog[t] = append(prog[t], []interface{}{"len"})
